@@ -40,7 +40,9 @@ TECHNIQUE = ("socket ledger: class-level wrappers on socket.socket.__init__/clos
 RULE = ("server cases: random histories (4-14 ops, plain and TLS) over {connect, full TLS handshake, stalled TLS "
         "handshake with 0/1/5/half/all-but-one/all bytes of a real ClientHello, garbage instead of a ClientHello, "
         "peer send, peer close (cutoff), peer abort (RST), connect again from the same bound source port (replacement "
-        "in .ixes/.cxes), k service rounds, server reopen, server close}; every case ends with close. client cases: "
+        "in .ixes/.cxes), k service rounds, server reopen, server close}; every case ends with close; a share of the TLS cases "
+        "uses a listen backlog bl of 1-3 with more peers stalled in the handshake than bl (whatever is accepted but not "
+        "yet a remoter waits in .axes). client cases: "
         "random histories over {harness listener up/down (connect refused), reopen, connect attempts, service, peer "
         "close/abort (cutoff), TLS handshake failure, application reconnect, virtual-time ticks (reconnect by "
         "tymeout), close} for Client and ClientTls. Non-trivial = a judged close saw at least one accepted "
@@ -64,6 +66,7 @@ REQUIRE = {
     "remoters_left_tables.replaced-in-ixes": 40,
     "remoters_left_tables.replaced-in-cxes": 10,
     "accepted_reset_before_service": 40,
+    "closes_with_more_pending_handshakes_than_backlog": 40,
     "at_close.cutoff-in-ixes": 40,
     "at_close.live-in-ixes": 100,
     "client_ops_judged": 1000,
@@ -172,6 +175,46 @@ def _gen_server(rng, tls, maxops):
     return {"kind": "server", "tls": tls, "ops": ops}
 
 
+def _gen_backlog(rng, maxops):
+    """ServerTls with a small listen backlog bl and more peers stalled in the handshake than bl when it is
+    closed / reopened (anything the server accepted but has not yet turned into a remoter sits in .axes)"""
+    bl = rng.choice([1, 1, 2, 2, 3])
+    ops = []
+    npid = 0
+    live = []
+    for _ in range(bl + rng.randint(1, 3)):
+        ops.append(["stall", npid, None, rng.choice(STALLS)])
+        live.append(npid)
+        npid += 1
+        if rng.random() < 0.6:
+            ops.append(["service", 1])
+    for _ in range(rng.randint(0, max(0, maxops - len(ops) - 2))):
+        r = rng.random()
+        if r < 0.3:
+            ops.append(["stall", npid, None, rng.choice(STALLS)])
+            live.append(npid)
+            npid += 1
+        elif r < 0.4:
+            ops.append(["conn", npid, None])
+            live.append(npid)
+            npid += 1
+        elif r < 0.5 and live:
+            pid = rng.choice(live)
+            live.remove(pid)
+            ops.append([rng.choice(["close", "abort"]), pid])
+        elif r < 0.8:
+            ops.append(["service", rng.randint(1, 2)])
+        elif r < 0.9:
+            ops.append(["reopen"])
+        else:
+            ops.append(["srvclose"])
+            ops.append(["reopen"])
+    if rng.random() < 0.7:
+        ops.append(["service", 1])
+    ops.append(["srvclose"])
+    return {"kind": "server", "tls": True, "bl": bl, "ops": ops}
+
+
 def _gen_client(rng, tls, maxops):
     ops = []
     listening = rng.random() < 0.6
@@ -222,6 +265,13 @@ FIXED = [
     {"kind": "server", "tls": True, "ops": [["garbage", 0, None], ["service", 2], ["srvclose"]]},
     {"kind": "server", "tls": False, "ops": [["conn", 0, None], ["abort", 0], ["service", 1], ["srvclose"]]},
     {"kind": "server", "tls": True, "ops": [["stall", 0, None, "none"], ["abort", 0], ["service", 1], ["srvclose"]]},
+    {"kind": "server", "tls": True, "bl": 2, "ops": [["stall", 0, None, "none"], ["stall", 1, None, "none"],
+                                                   ["stall", 2, None, "none"], ["service", 1], ["srvclose"]]},
+    {"kind": "server", "tls": True, "bl": 1, "ops": [["stall", 0, None, "5"], ["service", 1], ["stall", 1, None, "half"],
+                                                   ["service", 2], ["reopen"], ["service", 1], ["srvclose"]]},
+    {"kind": "server", "tls": True, "bl": 3, "ops": [["stall", 0, None, "all"], ["stall", 1, None, "none"], ["service", 1],
+                                                   ["stall", 2, None, "1"], ["stall", 3, None, "none"],
+                                                   ["stall", 4, None, "allbut1"], ["service", 2], ["srvclose"]]},
     {"kind": "client", "tls": False, "reconnectable": False, "tymeout": 0.0, "peer_tls": "handshake",
      "ops": [["listen", False], ["connect", 3], ["listen", True], ["connect", 3], ["peer_close"], ["service", 2],
              ["app_reconnect"], ["connect", 3], ["close"]]},
@@ -242,8 +292,10 @@ def cases(tier, seed, shard, nshards):
         r = rng.random()
         if r < 0.25:
             yield _gen_server(rng, False, maxops)
-        elif r < 0.65:
+        elif r < 0.57:
             yield _gen_server(rng, True, maxops)
+        elif r < 0.65:
+            yield _gen_backlog(rng, maxops)
         elif r < 0.83:
             yield _gen_client(rng, False, maxops + 4)
         else:
@@ -314,6 +366,7 @@ class ServerRun:
         self.closes = []       # state-label sets seen at each judged close
         self.accepted_checked = 0
         self.used_src = set()  # source-port slots that connected at least once
+        self.unserviced = 0    # peer connects since the last service round
         self.trace = []
 
     # -- construction --------------------------------------------------------
@@ -324,6 +377,8 @@ class ServerRun:
         if self.tls:
             cls = serving.ServerTls
             kw = dict(keypath=_cert("server_key.pem"), certpath=_cert("server_cert.pem"), certify=ssl.CERT_NONE)
+        if self.case.get("bl"):
+            kw["bl"] = self.case["bl"]
         for _ in range(40):
             port = ports.next()
             srv = cls(ha=(HOST, port), **kw)
@@ -341,6 +396,10 @@ class ServerRun:
         return self.srcports[slot]
 
     def _tcp_connect(self, pid, src):
+        bl = self.case.get("bl")
+        if bl and self.unserviced >= bl:
+            self.service(1)     # let the server accept: a full accept queue drops SYNs and connect() would wait
+        self.unserviced += 1
         if src is not None and src in self.srcowner:
             self.abort(self.srcowner.pop(src))         # frees the 4-tuple: RST, no TIME_WAIT
         for attempt in range(30):
@@ -458,6 +517,7 @@ class ServerRun:
     # -- the server under observation --------------------------------------------
     def service(self, n):
         for _ in range(n):
+            self.unserviced = 0
             try:
                 self.server.service()
                 self.ctx.count("server_service_rounds")
@@ -511,6 +571,12 @@ class ServerRun:
         """what there is to close right now (state labels, for coverage and the case signature)"""
         self.scan()
         labels = set()
+        srv = self.server
+        pending = len(getattr(srv, "cxes", {})) + len(srv.axes)
+        if srv.axes:
+            labels.add("queued-in-axes")
+        if self.case.get("bl") and pending > srv.bl:
+            self.ctx.count("closes_with_more_pending_handshakes_than_backlog")
         for r in self.remoters:
             st = self.status.get(id(r))
             if r.cs is None:
@@ -551,6 +617,8 @@ class ServerRun:
             r = by_sock.get(id(e.sock))
             if e.kind == "new":
                 label = "listener"
+            elif r is None and any(cs is e.sock for cs, _ in srv.axes):
+                label = "accepted-still-queued-in-axes"
             elif r is None:
                 label = "accepted-never-became-remoter"
             else:
